@@ -25,6 +25,18 @@ SEED = int(os.environ.get("VERIF_SEED", "0") or 0)
 WORKERS = int(os.environ.get("VERIF_WORKERS", "0") or 0) or min(16, os.cpu_count() or 4)
 
 
+def _worker_init(parent_pid):
+    """a worker must not outlive the check that started it (e.g. when the check is killed by a timeout)"""
+    import threading
+
+    def watch():
+        while True:
+            time.sleep(2.0)
+            if os.getppid() != parent_pid:
+                os._exit(3)
+    threading.Thread(target=watch, daemon=True).start()
+
+
 def tier(quick, thorough):
     return thorough if TIER == "thorough" else quick
 
@@ -162,7 +174,7 @@ class Check:
                 self._absorb(r)
             return
         ctx = mp.get_context("spawn")
-        with ProcessPoolExecutor(max_workers=min(workers, len(items)), mp_context=ctx) as ex:
+        with ProcessPoolExecutor(max_workers=min(workers, len(items)), mp_context=ctx, initializer=_worker_init, initargs=(os.getpid(),)) as ex:
             futs = {ex.submit(_worker_entry, modname, fnname, it): it for it in items}
             try:
                 for f in as_completed(futs, timeout=budget_s):
